@@ -1518,6 +1518,31 @@ def _int_method(I, s, fr, callee, args, dty, work, at):
     raise Unsupported("int method %s::%s" % (ty, meth))
 
 
+def _ref_eq(I, s, fr, callee, args, dty, work, at):
+    """`<&T as PartialEq>::eq/ne` (std's blanket impl): compare the referents — scalars directly, crate types by inlining their own eq"""
+    m = re.match(r"^<&(.+) as PartialEq>::(eq|ne)$", callee)
+    inner_ty, meth = m.group(1), m.group(2)
+
+    def deref(v):
+        if isinstance(v, Ref):
+            f2 = I.frame_by_id(s, v.frame)
+            return I.load_raw(s, f2, v.local, list(v.proj))
+        return v
+    a, b = deref(args[0]), deref(args[1])
+    a2, b2 = deref(a), deref(b)
+    if isinstance(a2, Scalar) and isinstance(b2, Scalar):
+        r = I.binop("Eq" if meth == "eq" else "Ne", a2, b2)
+        return r
+    if meth == "ne":
+        raise Unsupported("<&T as PartialEq>::ne on a non-scalar")
+    want = "&" + inner_ty
+    norm = lambda t: re.sub(r"\b(?:[a-z_][a-z0-9_]*::)+", "", t or "?").replace(" ", "")
+    cands = [f for f in I.by_short.get("eq", []) if len(f.params) == 2 and norm(f.params[0][1]) == norm(want) and norm(f.params[1][1]) == norm(want)]
+    if len(cands) != 1:
+        raise Unsupported("no unique eq for %s (%d candidates)" % (inner_ty, len(cands)))
+    return ("INLINE", cands[0], [a, b], None)
+
+
 def _ord_method(name):
     """PartialOrd::{lt,le,gt,ge} / PartialEq::ne default (provided) methods on crate types: run the type's own
     partial_cmp / eq from the MIR dump, then apply core's definition of the provided method."""
@@ -1556,6 +1581,7 @@ STD_MODELS = {
     r"^<(?!f64|f32|i8|i16|i32|i64|u8|u16|u32|u64|usize|isize|bool|char)[\w:]+ as PartialOrd>::gt$": _ord_method("gt"),
     r"^<(?!f64|f32|i8|i16|i32|i64|u8|u16|u32|u64|usize|isize|bool|char)[\w:]+ as PartialOrd>::ge$": _ord_method("ge"),
     r"^<(?!f64|f32|i8|i16|i32|i64|u8|u16|u32|u64|usize|isize|bool|char)[\w:]+ as PartialEq>::ne$": _ord_method("ne"),
+    r"^<&.+ as PartialEq>::(eq|ne)$": _ref_eq,
     r"^<\w+ as TryFrom<\w+>>::try_from$|^<\w+ as TryInto<\w+>>::try_into$": _try_from_int,
     r"^Result::<.*>::ok$": _result_ok,
     r"as (?:std::ops::)?Try>::branch$": _try_branch,
